@@ -235,7 +235,13 @@ func (t *Tokenizer) run(tokens chan<- Token) {
 		case '\'':
 			image := t.readSkip(func(c rune) bool { return c != '\'' }, false)
 			t.next(false)
+			if lastTokenType == tNumber || lastTokenType == tIdent || lastTokenType == tClose {
+				tokens <- Token{tOperate, "*", t.getLine()}
+			}
 			tokens <- Token{tIdent, image, t.getLine()}
+			if t.comfortEnabled {
+				thisTokenType = tIdent
+			}
 		case '⁰':
 			tokens <- Token{tOperate, "^", t.getLine()}
 			tokens <- Token{tNumber, "0", t.getLine()}
